@@ -131,8 +131,7 @@ func (m *mon) runCovMatrix() {
 	vrt.Parallel(cases, func(ci int) {
 		r := c.RNG("covmat", ci)
 		n, d := r.Range(2, 40), r.Range(1, 6)
-		class := classes[ci%len(classes)]
-		wk := kinds[ci%len(kinds)]
+		class, wk := cross(ci, classes, kinds)
 		ds := genDataset(r, n, d, class)
 		ds.w = genWeights(r, wk, n)
 		cov, covf, unit, ms := exactCov(ds)
